@@ -393,7 +393,11 @@ func (t *taskTrace) Do(options ...DoOption) {
 	}
 
 	response := newDoOption(options...)
-	t.forward <- *response
+	select {
+	case t.forward <- *response:
+	default:
+		// an answer is already queued: the first Do decides, this one has no effect
+	}
 }
 
 func (t *taskTrace) process() {
